@@ -126,7 +126,7 @@ class InMemoryObjectStore(BaseObjectStore):
                 f'Name "{name}" not in {self._cim_object_type} object store')
 
         # Replace the existing object with a copy of the input object
-        self._data[name] = (cim_object)
+        self._data[name] = deepcopy(cim_object)
 
     def delete(self, name):
         if name in self._data:
